@@ -315,7 +315,7 @@ def eval_case(case):
 
 def parts(tier):
     t = tier == 'thorough'
-    per = 5000 if t else 150
+    per = 10000 if t else 150
     return [
         Part('table', eval_case, strategy=lambda: strategy(list(ds.LAYOUT)), examples=per * len(ds.LAYOUT)),
         Part('relation', eval_case, strategy=lambda: strategy(ds.NO_TABLE), examples=per * len(ds.NO_TABLE)),
